@@ -149,3 +149,17 @@ Example ex_dynamic :
   | None => False
   end.
 Proof. vm_compute. reflexivity. Qed.
+
+(* CSS: e0 (1) and e1 (2) import the stubs (6, 7) of a.css (4) and b.css (5); a.css @imports
+   b.css.  Both entry points get a CSS chunk; b.css is in both (duplicated by design) *)
+From V Require Import C10.Css C10.CssProofs.
+Definition ex_css : cgraph := map mk_cfile
+  [(false, [], -1); (false, [6; 7], -1); (false, [6], -1); (false, [], -1); (true, [5], -1); (true, [], -1); (false, [], 4); (false, [], 5)].
+Example ex_css_chunks : (wf_cgraphb ex_css, css_chunks ex_css [1; 2]%nat)
+  = (true, [(0, 1, [4; 5]); (1, 2, [5; 4])]%nat).
+Proof. vm_compute. reflexivity. Qed.
+Example ex_css_path : spath ex_css [0%nat] 4%nat 5%nat /\ jreach ex_css 2 6 /\ cf_stub (getc ex_css 6) = Some 4%nat.
+Proof.
+  split; [eapply sp_step; [intros [H|[]]; discriminate | left; reflexivity | apply sp_here; intros [H|[H|[]]]; discriminate]|].
+  split; [eapply jr_step; [apply jr_refl | vm_compute; auto] | reflexivity].
+Qed.
